@@ -559,3 +559,45 @@ Section Final.
     exists F0. intros F HF0. exists fin', p'. unfold bind. rewrite ES'. destruct u'. split; [apply HB, HF0|]. rewrite Hfin. exact Hiso.
   Qed.
 End Final.
+
+(* ================= run level ================= *)
+(* run_lazy with separate fuels for the execution phase and for the evaluation phase
+   (run_lazy fuel = run_lazy2 fuel (fuel + default_eval_fuel): lemma run_lazy_2) *)
+Definition run_lazy2 {rx : Type} (t : tree) (fl : file) (cfg : config) (supplied : globals) (budget : option N)
+    (regexes : list rx) (find : rx -> str -> option (list (option (N * N))))
+    (call : ident -> graph -> list value -> res (value * graph))
+    (fuel feval : nat) (matches : list (N * qmatch)) (g0 : graph) : outcome exec_error (lstate * polls) :=
+  match check_globals (f_globals fl) (globals_nested supplied) with
+  | Ok glob =>
+      match (iterM (bstep t fl cfg glob regexes find call fuel) matches ;;; evaluate_phase t fl call feval) (linit g0) (polls0 budget) with
+      | Ok (_, s, p) => Ok (s, p)
+      | Err e => Err e
+      | Panic p => Panic p
+      | OutOfFuel => OutOfFuel
+      end
+  | Err e => Err e
+  | Panic p => Panic p
+  | OutOfFuel => OutOfFuel
+  end.
+Lemma run_lazy_2 {rx : Type} t fl cfg supplied budget (regexes : list rx) find call fuel ms g0 :
+  run_lazy t fl cfg supplied budget regexes find call fuel ms g0 = run_lazy2 t fl cfg supplied budget regexes find call fuel (fuel + default_eval_fuel) ms g0.
+Proof. reflexivity. Qed.
+
+Theorem lazy_run_perm {rx : Type} t fl supplied (regexes : list rx) find call (okfn : ident -> Prop) fuel ms ms' g0 ls p :
+  (forall f, okfn f -> call_ok call f) -> gclosed (N.of_nat (length g0)) g0 ->
+  (forall glob, check_globals (f_globals fl) (globals_nested supplied) = Ok glob ->
+     forall name v, globals_get glob name = Some v -> vall (fun i => i < N.of_nat (length g0)) v) ->
+  Permutation ms ms' -> Forall (pm_ok fl okfn) ms ->
+  run_lazy t fl config0 supplied None regexes find call fuel ms g0 = Ok (ls, p) ->
+  exists r r', (forall i, r' (r i) = i) /\ (forall i, r (r' i) = i) /\ (forall i, i < N.of_nat (length g0) -> r i = i) /\
+    exists F0, forall F, (F0 <= F)%nat -> exists ls' p', run_lazy2 t fl config0 supplied None regexes find call fuel F ms' g0 = Ok (ls', p') /\
+      graph_iso r (l_graph ls) (l_graph ls').
+Proof.
+  intros Hcall Hcl Hglob HP Hok H. rewrite run_lazy_2 in H. unfold run_lazy2 in *.
+  destruct (check_globals (f_globals fl) (globals_nested supplied)) as [glob|e|x|] eqn:Eg; try discriminate.
+  destruct ((iterM (bstep t fl config0 glob regexes find call fuel) ms;;; evaluate_phase t fl call (fuel + default_eval_fuel)) (linit g0) (polls0 None)) as [[[u s] p0]|e|x|] eqn:E; try discriminate.
+  inversion H; subst s p0; clear H.
+  destruct (lazy_perm_eval t fl glob regexes find call okfn Hcall g0 (Hglob glob eq_refl) Hcl fuel _ ms ms' u ls p HP Hok E) as (r & r' & I1 & I2 & Fx & F0 & HF).
+  exists r, r'. split; [exact I1|]. split; [exact I2|]. split; [exact Fx|]. exists F0. intros F HF0. destruct (HF F HF0) as (fin' & p' & E' & Hiso).
+  exists fin', p'. rewrite E'. split; [reflexivity|exact Hiso].
+Qed.
